@@ -11,6 +11,7 @@ either a Python `str` (fully known) or a `SymStr`: a sequence of pieces
     ("lit", text)      known text
     ("raw", a, b)      X[a : L-b]   (un-escaped user text)
     ("esc", a, b)      re.escape(X[a : L-b])
+    ("head",) ("tail",) the first / the last character of X (from `m[:1]`, `m[0]`, `m[-1:]`, `m[-1]`; only comparable with literals)
 
 Integers are Python ints or `SymInt(c, k)` = c + k*L.  Every operation is either computed exactly on this representation or raises
 `Unknown` (the domain cannot express the result - e.g. `m.strip('*')` when it is not known whether X starts with '*').  With X
